@@ -1,13 +1,8 @@
-import Rooc.Wire
-import Rooc.Oracle
+import Rooc.Drv.C01
 namespace Rooc.Drv.C02
 open Rooc Sexp
-
-/-- model requests for C02 (run at `Float` for the exact diff, at `Ext Rat` as oracle). -/
-def handle (α : Type) [Arith α] [Wire α] : List Sexp → Sexp
-  | _ => app "err" [.atom "bad-request"]
-
-/-- exact oracle: the PROPERTY evaluated on the implementation's own answer. -/
+/-- C02 shares the linearizer model requests of C01. -/
+def handle (α : Type) [Arith α] [Wire α] : List Sexp → Sexp := Drv.C01.handle α
 def oracle : List Sexp → Sexp
   | _ => app "err" [.atom "bad-request"]
 end Rooc.Drv.C02
